@@ -57,6 +57,21 @@ class MetaOnly(Suite):
                 tree = [e for e in tree if e["p"] != META and not e["p"].startswith(META + "2f")] + [ent]
                 # (no children below a directory of that name: the statement excepts the name itself only)
                 tree.sort(key=lambda e: gen.pathkey(bytes.fromhex(e["p"])))
+            if rng.random() < 0.06:
+                # the source has a DIRECTORY with the listing name, with children (they are listed, nothing is created below the name),
+                # and selected files after it: their ids count every announced entry
+                tree = [e for e in tree if e["p"] != META and not e["p"].startswith(META + "2f")]
+                tree.append({"p": META, "t": "dir", "uid": 0, "gid": 0, "mt": gen.MTIMES[0], "mode": 0o755})
+                for nm in rng.sample([b"a", b"ab", b"c", b"d/"], rng.randint(1, 3)):
+                    if nm.endswith(b"/"):
+                        tree.append({"p": META + "2f" + hx(nm[:-1]), "t": "dir", "uid": 0, "gid": 0, "mt": gen.MTIMES[0], "mode": 0o755})
+                        tree.append({"p": META + "2f" + hx(nm + b"x"), "t": "file", "size": 2, "uid": 0, "gid": 0, "mt": gen.MTIMES[0], "mode": 0o644})
+                    else:
+                        tree.append({"p": META + "2f" + hx(nm), "t": "file", "size": rng.choice([0, 7]), "uid": 0, "gid": 0, "mt": gen.MTIMES[0], "mode": 0o644})
+                for nm in (b"zfile1", b"zfile2"):
+                    if hx(nm) not in {e["p"] for e in tree}:
+                        tree.append({"p": hx(nm), "t": "file", "size": rng.choice([5, 100]), "uid": 0, "gid": 0, "mt": gen.MTIMES[1], "mode": 0o644})
+                tree.sort(key=lambda e: gen.pathkey(bytes.fromhex(e["p"])))
             near = None
             if rng.random() < 0.2:
                 # a selected top-level entry whose name is NEAR the listing name (what an implementation might use as a staging / backup /
